@@ -33,6 +33,20 @@ pub struct Error {
     pub span: Span,
 }
 
+impl Error {
+    /// A parse error raised while building the AST (e.g. a literal out of range), located at
+    /// the offending piece of source.
+    pub(crate) fn custom(message: impl Into<String>, pair: &Pair<Rule>) -> Self {
+        pest::error::Error::new_from_span(
+            pest::error::ErrorVariant::<Rule>::CustomError {
+                message: message.into(),
+            },
+            pair.as_span(),
+        )
+        .into()
+    }
+}
+
 impl From<pest::error::Error<Rule>> for Error {
     fn from(error: pest::error::Error<Rule>) -> Self {
         match &error.variant {
@@ -939,13 +953,19 @@ impl AstNode for UtxoRef {
     fn parse(pair: Pair<Rule>) -> Result<Self, Error> {
         let span = pair.as_span().into();
         let raw_ref = pair.as_span().as_str()[2..].to_string();
-        let (raw_txid, raw_output_ix) = raw_ref.split_once("#").expect("Invalid utxo ref");
 
-        Ok(UtxoRef {
-            txid: hex::decode(raw_txid).expect("Invalid hex txid"),
-            index: raw_output_ix.parse().expect("Invalid output index"),
-            span,
-        })
+        let (raw_txid, raw_output_ix) = raw_ref
+            .split_once("#")
+            .ok_or_else(|| Error::custom("invalid utxo ref", &pair))?;
+
+        let txid = hex::decode(raw_txid)
+            .map_err(|_| Error::custom("invalid hex in utxo ref (odd number of digits)", &pair))?;
+
+        let index = raw_output_ix
+            .parse()
+            .map_err(|_| Error::custom("utxo ref output index out of range", &pair))?;
+
+        Ok(UtxoRef { txid, index, span })
     }
 
     fn span(&self) -> &Span {
@@ -1106,7 +1126,12 @@ impl AstNode for MapConstructor {
 
 impl DataExpr {
     fn number_parse(pair: Pair<Rule>) -> Result<Self, Error> {
-        Ok(DataExpr::Number(pair.as_str().parse().unwrap()))
+        let value = pair
+            .as_str()
+            .parse()
+            .map_err(|_| Error::custom("number literal out of range", &pair))?;
+
+        Ok(DataExpr::Number(value))
     }
 
     fn bool_parse(pair: Pair<Rule>) -> Result<Self, Error> {
